@@ -83,6 +83,12 @@ func runC20(c *Ctx) {
 	if p == nil {
 		return
 	}
+	// --- H10 ------------------------------------------------------------------
+	// "independently of how the reader chunks the data": the hasher reads its input through safeio's contextual reader. That
+	// adapter hands on what the wrapped reader reported — the bytes, and its error through the package's converters — and
+	// makes up no error of its own: an empty read (0, nil) taken for the end of the data yields the digest of a prefix
+	// (the obligation C09/A24).
+	c.contextualAdaptersConvert("H10")
 	// --- H9 -------------------------------------------------------------------
 	// "the digest returned for a content equals the reference digest": what the file hasher answers is the pair the hasher
 	// answered for the handle. A deferred release of the handle that writes its own outcome over the error (`err =
